@@ -90,6 +90,21 @@ class _Subst(ast.NodeTransformer):
         return node
 
 
+class _NoneFold(ast.NodeTransformer):
+    """after a name has been replaced by a class / function: `<that> is None` is false, `<that> is not None` true"""
+
+    def __init__(self, val):
+        self.text = ast.unparse(val)
+
+    def visit_If(self, node):
+        self.generic_visit(node)
+        t = node.test
+        if isinstance(t, ast.Compare) and len(t.ops) == 1 and isinstance(t.ops[0], (ast.Is, ast.IsNot)) and isinstance(t.comparators[0], ast.Constant) and t.comparators[0].value is None and ast.unparse(t.left) == self.text:
+            keep = node.orelse if isinstance(t.ops[0], ast.Is) else node.body
+            return keep or None
+        return node
+
+
 class _Beta(ast.NodeTransformer):
     """(lambda a, b: body)(x, y) -> body[a := x, b := y]  when every argument is simple or used at most once"""
 
@@ -254,9 +269,44 @@ class Unroller(ast.NodeTransformer):
         self.fn.append((local, params, counts))
         self.fn_nodes.append(node)
         self.generic_visit(node)
+        node.body = self._dispatch_split(node.body, counts)
         self.fn_nodes.pop()
         self.fn.pop()
         return node
+
+    def _dispatch_split(self, body, counts):
+        """x = TABLE.get(key) (TABLE a constant dict of at most 8 entries whose values are names of classes / functions,
+        x bound once) followed by the rest of the block  ->  if key == k1: <rest with v1 for x> elif .. else: x = None;
+        <rest>: the look-up in a dispatch table and the chain of comparisons select the same value."""
+        for i, st in enumerate(body):
+            if not (isinstance(st, ast.Assign) and len(st.targets) == 1 and isinstance(st.targets[0], ast.Name) and counts.get(st.targets[0].id) == 1):
+                continue
+            v = st.value
+            if not (isinstance(v, ast.Call) and isinstance(v.func, ast.Attribute) and v.func.attr == "get" and 1 <= len(v.args) <= 2 and not v.keywords and _simple(v.args[0])):
+                continue
+            t = self.table(v.func.value)
+            if not t or t[0] != "pairs" or not (1 <= len(t[1].keys) <= 8):
+                continue
+            d = t[1]
+            if not all(isinstance(k, ast.Constant) for k in d.keys) or not all(isinstance(x, (ast.Name, ast.Attribute)) for x in d.values):
+                continue
+            x = st.targets[0].id
+            rest = body[i + 1 :]
+            if any(isinstance(n, (ast.FunctionDef, ast.Lambda, ast.ClassDef)) for r in rest for n in ast.walk(r)):
+                continue
+            default = v.args[1] if len(v.args) == 2 else ast.Constant(value=None)
+            if not _simple(default):
+                continue
+            chain = None
+            tail_else = [ast.copy_location(ast.Assign(targets=[ast.Name(id=x, ctx=ast.Store())], value=default, type_comment=None), st)] + [copy.deepcopy(r) for r in rest]
+            for k, val in reversed(list(zip(d.keys, d.values))):
+                sub = [_NoneFold(val).visit(_Subst({x: val}).visit(copy.deepcopy(r))) for r in rest]
+                sub = [y for r in sub for y in (r if isinstance(r, list) else [r])] or [ast.copy_location(ast.Pass(), st)]
+                test = ast.copy_location(ast.Compare(left=copy.deepcopy(v.args[0]), ops=[ast.Eq()], comparators=[copy.deepcopy(k)]), st)
+                chain = ast.copy_location(ast.If(test=test, body=sub, orelse=[chain] if chain is not None else tail_else), st)
+            self.count += 1
+            return body[:i] + [ast.fix_missing_locations(chain)]
+        return body
 
     # ---- table resolution
     def table(self, e, depth=0):
@@ -375,8 +425,77 @@ class Unroller(ast.NodeTransformer):
             return all(Unroller.bind(t, r, out) for t, r in zip(target.elts, row.elts))
         return False
 
+    def _simple_generator(self, call):
+        """the generator helper `self.g()` / `g()` of this class / module whose body only yields simple values, possibly
+        under if-statements (no loops, no other effects): the function def, else None"""
+        if not (isinstance(call, ast.Call) and not call.args and not call.keywords):
+            return None
+        f = call.func
+        g = None
+        if isinstance(f, ast.Name):
+            g = self.mod_funcs.get(f.id)
+            if g is not None and g.args.args:
+                return None
+        elif isinstance(f, ast.Attribute) and isinstance(f.value, ast.Name) and f.value.id in ("self", "cls") and self.cls and self.cls[-1] in self.classes:
+            g = self.classes[self.cls[-1]][1].get(f.attr)
+            if g is not None and (len(g.args.args) != 1 or g.args.args[0].arg != f.value.id or g.decorator_list):
+                return None
+        if g is None or g.args.vararg or g.args.kwarg or g.args.kwonlyargs:
+            return None
+
+        def ok(stmts):
+            for st in stmts:
+                if isinstance(st, ast.Expr) and isinstance(st.value, ast.Constant):
+                    continue
+                if isinstance(st, ast.Expr) and isinstance(st.value, ast.Yield) and st.value.value is not None and _simple(st.value.value):
+                    continue
+                if isinstance(st, ast.If) and not any(isinstance(n, (ast.Yield, ast.YieldFrom, ast.Call, ast.NamedExpr)) for n in ast.walk(st.test)) and ok(st.body) and ok(st.orelse):
+                    continue
+                return False
+            return True
+
+        return g if ok(g.body) and any(isinstance(n, ast.Yield) for n in ast.walk(g)) else None
+
+    def _inline_generator(self, node, g):
+        """for <target> in g(): BODY  ->  g's statements with every `yield v` replaced by BODY[target := v]"""
+        if node.orelse or _has_loop_jump(node.body, (ast.Break, ast.Continue)):
+            return None
+        stores = _stores(node.body)
+        counter = [0]
+
+        def conv(stmts):
+            out = []
+            for st in stmts:
+                if isinstance(st, ast.Expr) and isinstance(st.value, ast.Constant):
+                    continue
+                if isinstance(st, ast.Expr) and isinstance(st.value, ast.Yield):
+                    m = {}
+                    if not self.bind(node.target, st.value.value, m) or set(m) & stores:
+                        return None
+                    k = counter[0]
+                    counter[0] += 1
+                    for s in node.body:
+                        s2 = _Beta().visit(_FoldAttr().visit(_Subst(m).visit(copy.deepcopy(s))))
+                        for n in ast.walk(s2):
+                            n._uidx = (k,) + getattr(n, "_uidx", ())
+                        out.append(s2)
+                    continue
+                b, o = conv(st.body), conv(st.orelse)
+                if b is None or o is None:
+                    return None
+                out.append(ast.copy_location(ast.If(test=copy.deepcopy(st.test), body=b or [ast.copy_location(ast.Pass(), st)], orelse=o), st))
+            return out
+
+        return conv(g.body)
+
     def visit_For(self, node):
         self.generic_visit(node)
+        g = self._simple_generator(node.iter)
+        if g is not None:
+            out = self._inline_generator(node, g)
+            if out:
+                self.count += 1
+                return out
         t = self.table(node.iter)
         if t is None:
             return node
@@ -841,6 +960,14 @@ class _MapExtend(ast.NodeTransformer):
         c = node.value
         if isinstance(c, ast.Call) and isinstance(c.func, ast.Attribute) and c.func.attr == "extend" and len(c.args) == 1 and not c.keywords:
             m = c.args[0]
+            if isinstance(m, (ast.GeneratorExp, ast.ListComp)) and len(m.generators) == 1 and not m.generators[0].is_async:
+                gen = m.generators[0]
+                app = ast.Expr(value=ast.Call(func=ast.Attribute(value=c.func.value, attr="append", ctx=ast.Load()), args=[m.elt], keywords=[]))
+                inner = [ast.copy_location(app, node)]
+                for cond in reversed(gen.ifs):
+                    inner = [ast.copy_location(ast.If(test=cond, body=inner, orelse=[]), node)]
+                loop = ast.copy_location(ast.For(target=gen.target, iter=gen.iter, body=inner, orelse=[], type_comment=None), node)
+                return ast.fix_missing_locations(loop)
             if isinstance(m, ast.Call) and isinstance(m.func, ast.Name) and m.func.id == "map" and len(m.args) == 2 and not m.keywords and isinstance(m.args[0], (ast.Name, ast.Attribute, ast.Lambda)):
                 self.n += 1
                 v = "_mapped%d" % self.n
